@@ -63,7 +63,8 @@ add(tok("cdn_neg", "cdn", CDN, sign=-1.0), Q)
 add(tok("lsn_unequal", "lsn", SN, options=dict(ny_inner_divertor=3, ny_sol=10, ny_outer_divertor=6, nx_core=3, nx_sol=5, y_boundary_guards=1)))
 add(tok("lsn_g0", "lsn", SN, options=dict(y_boundary_guards=0)))
 add(tok("lsn_dct", "lsn", SN, options=dict(psi_interpolation_method="dct")))
-add(tok("lsn_slant", "lsn", SN, wall="slant"))
+add(tok("lsn_slant", "lsn", SN, wall="slant"), Q)
+add(tok("lsn_nonorth_slant", "lsn", nonorth(SN), wall="slant", options=dict(y_boundary_guards=1)), Q)
 add(tok("lsn_poly_acw", "lsn", SN, wall="poly", wall_anticlockwise=True))
 add(tok("usn_nonorth", "usn", nonorth(SN)))
 add(tok("cdn_nonorth", "cdn", nonorth(CDN)))
